@@ -85,7 +85,7 @@
  "replace": ["mark_blocks_used"],
  "includes": ["e2fsck", "lib/support"],
  "sources": ["lib/ext2fs/blknum.c"],
- "unwind": 6,
+ "unwind": 16,
  "unwindset": {"__CPROVER_contracts_write_set_check_assigns_clause_inclusion.0": 14, "__CPROVER_contracts_write_set_check_assignment.0": 14},
  "unwind_reason": "per-extent loop: one iteration by construction (see p1_scan_extent_leaf_detect); the two directory-block-list loops inside it (hole filling, one entry per block of the extent) are closed by loop contracts given through the named anchors VERIF_INV_PASS1_SCAN_EXTENT_HOLES / _DBLOCKS (hooks-pending/p1h.diff); the global bound serves the DFCC library loops",
  "functions": ["e2fsck/pass1.c:scan_extent_node"],
